@@ -956,7 +956,8 @@ fn eval_c33(case: &Case, acc: &Acc) -> Vec<Violation> {
         .iter()
         .find(|n| strict_kw.contains(&n.as_str()))
         .map(|n| format!("non_terminal_named_{n}"))
-        .or_else(|| nts.iter().find(|n| generated_items.contains(&n.as_str())).map(|n| format!("non_terminal_named_like_generated_item_{n}")));
+        .or_else(|| nts.iter().find(|n| generated_items.contains(&n.as_str())).map(|n| format!("non_terminal_named_like_generated_item_{n}")))
+        .or_else(|| if case.par.contains("@self") { Some("member_named_self".to_string()) } else { None });
     if let Some(c) = cause {
         for v in out.iter_mut() {
             v.class = format!("{}({c})", v.class);
@@ -983,8 +984,10 @@ pub fn run(id: &str, tier: Tier, replay: Option<&str>) -> i32 {
         gs.extend(c25_grammars(tier));
     }
     if id == "C33" {
-        gs = gs.into_iter().step_by(tier.pick(12, 3)).collect();
-        gs.extend(c33_grammars(tier));
+        gs = gs.into_iter().step_by(tier.pick(40, 3)).collect();
+        let own = c33_grammars(tier);
+        let n_own = own.len();
+        gs.extend(own.into_iter().enumerate().filter(|(i, _)| tier == Tier::Thorough || i % 2 == 0 || *i > n_own - 200).map(|x| x.1));
     }
     let cases: Vec<Case> = gs.into_iter().map(|par| Case { par, k: 3 }).collect();
     acc.count("grammars", cases.len() as u64);
